@@ -573,12 +573,12 @@ def isOkB {α : Type} : Except OErr α → Bool
 /-- The witness world of finding D43: one basic client (uuid 400), one person (uuid 200) with a
 never-expiring login session 300 and an OAuth2 session 1000 issued at 5.1 s. -/
 def witnessClient : TClient := ⟨⟨400, .basic true false, [], [], false, [], []⟩, 7, 57600, [], []⟩
+def witnessEntry : Entry :=
+  { Entry.fresh (some 500) with
+    uats := some [(300, ⟨.neverExpires, 0, 500⟩)],
+    o2s := [(1000, ⟨.expiresAt (5100000000 + 57600 * 1000000000), 5100000000, 301⟩)] }
 def witnessWorld : World :=
-  { reg := [("rs".toList, witnessClient)],
-    accts := [(200, { Entry.fresh (some 500) with
-      uats := some [(300, ⟨.neverExpires, 0, 500⟩)],
-      o2s := [(1000, ⟨.expiresAt (5100000000 + 57600 * 1000000000), 5100000000, 301⟩)] })],
-    nextSid := 1001, cid := 1 }
+  { reg := [("rs".toList, witnessClient)], accts := [(200, witnessEntry)], nextSid := 1001, cid := 1 }
 /-- The refresh token issued with that session: `iat` = second 5. -/
 def witnessToken : RefreshTok := ⟨[0], some 300, 1000, 5 + 57600, 200, 5, none⟩
 
@@ -811,5 +811,293 @@ theorem revoked_session_refused_forever (hash : Nat → Nat) (ops : List Op) (w 
     ∃ e, (run hash w ops).acct a = some e ∧ ∀ parent, Dead e sid parent ct := by
   obtain ⟨e, he, s, hs, hr⟩ := (revocation_is_permanent hash ops w a sid).1 h
   exact ⟨e, he, fun _ => Or.inr ⟨s, hs, Or.inl (Or.inl hr)⟩⟩
+
+/-! ## 7. Only the client it was issued to; never broader than issued — along every chain of redemptions -/
+
+/-- The client key a token was made under, its scopes, its account. -/
+def tokKey : Tok → Option Nat
+  | .code k _ => some k
+  | .refresh k _ => some k
+  | .clientAccess k _ => some k
+  | .access k _ => some k
+  | .garbage => none
+
+def tokScopes : Tok → List Nat
+  | .code _ c => c.scopes
+  | .refresh _ r => r.scopes
+  | .clientAccess _ a => a.scopes
+  | .access _ a => a.scopes
+  | .garbage => []
+
+def tokAcct : Tok → Option Nat
+  | .code _ c => some c.accountUuid
+  | .refresh _ r => some r.acct
+  | .clientAccess _ a => some a.acct
+  | .access _ a => some a.acct
+  | .garbage => none
+
+/-- `t'` is one of the tokens of the response `r`. -/
+def InResp (r : Resp) (t' : Tok) : Prop := t' = r.access ∨ r.refresh = some t'
+
+/-- `t'` was minted by redeeming `t` — at some client, in some state, at some instant. -/
+inductive Minted (hash : Nat → Nat) : Tok → Tok → Prop where
+  | byCode {w w' : World} {c : TClient} {t t' : Tok} {u : Nat} {v : Option Nat} {ct : Nat} {r : Resp} :
+      exchangeCode hash w c t u v ct = (w', .ok r) → InResp r t' → Minted hash t t'
+  | byRefresh {w w' : World} {c : TClient} {t t' : Tok} {req : Option (List Nat)} {ct : Nat} {r : Resp} :
+      exchangeRefresh w c t req ct = (w', .ok r) → InResp r t' → Minted hash t t'
+
+/-- Any chain of redemptions, across any states. -/
+inductive Lineage (hash : Nat → Nat) : Tok → Tok → Prop where
+  | one {a b : Tok} : Minted hash a b → Lineage hash a b
+  | more {a b c : Tok} : Lineage hash a b → Minted hash b c → Lineage hash a c
+
+/-- What is preserved: same client key, same account, scopes not broader. -/
+def Narrower (t t' : Tok) : Prop :=
+  tokKey t' = tokKey t ∧ tokAcct t' = tokAcct t ∧ ∀ x ∈ tokScopes t', x ∈ tokScopes t
+
+theorem minted_narrower {hash : Nat → Nat} {t t' : Tok} (h : Minted hash t t') : Narrower t t' := by
+  cases h with
+  | byCode hx hin =>
+    obtain ⟨cd, ht, _, _, _, _, hacc, href⟩ := exchange_code_grant hx
+    subst ht
+    rcases hin with h1 | h1
+    · rw [h1, hacc]; exact ⟨rfl, rfl, fun x hx => hx⟩
+    · rw [href] at h1; injection h1 with h1; rw [← h1]; exact ⟨rfl, rfl, fun x hx => hx⟩
+  | byRefresh hx hin =>
+    obtain ⟨rt, ht, hsub, _, _, _, _, _, hacc, href⟩ := exchange_refresh_grant hx
+    subst ht
+    rcases hin with h1 | h1
+    · rw [h1, hacc]; exact ⟨rfl, rfl, hsub⟩
+    · rw [href] at h1; injection h1 with h1; rw [← h1]; exact ⟨rfl, rfl, hsub⟩
+
+/-- **A refresh never grants scopes beyond the original grant; tokens stay with their client and
+account** — for every chain of redemptions starting from any token, through any sequence of
+states. -/
+theorem lineage_never_broadens {hash : Nat → Nat} {t t' : Tok} (h : Lineage hash t t') : Narrower t t' := by
+  induction h with
+  | one hm => exact minted_narrower hm
+  | more _ hm ih =>
+    obtain ⟨k1, a1, s1⟩ := ih
+    obtain ⟨k2, a2, s2⟩ := minted_narrower hm
+    exact ⟨k2.trans k1, a2.trans a1, fun x hx => s1 x (s2 x hx)⟩
+
+/-- **Only at the client it was issued for.** Whatever the token endpoint grants, it grants to a
+registered client named by the request, which (if confidential) presented its own secret, and the
+redeemed code / refresh token was made under that client's key; the tokens handed out are under
+the same key. Client credentials need a confidential client. -/
+theorem token_endpoint_only_own_client {hash : Nat → Nat} {w w' : World}
+    {auth : Option (List Char × Option Nat)} {g : Grant} {ct : Nat} {r : Resp}
+    (h : tokenEndpoint hash w auth g ct = (w', .ok r)) :
+    ∃ id sec c, auth = some (id, sec) ∧ w.client id = some c ∧
+      (c.base.isBasic = true → sec = some c.secret) ∧
+      (∀ t u v, g = .code t u v → ∃ cd, t = .code c.base.uuid cd) ∧
+      (∀ t s, g = .refresh t s → ∃ rt, t = .refresh c.base.uuid rt) ∧
+      (∀ s, g = .cc s → c.base.isBasic = true) ∧
+      tokKey r.access = some c.base.uuid := by
+  unfold tokenEndpoint at h
+  cases ha : authenticate w auth with
+  | error e => simp [ha] at h
+  | ok cv =>
+    obtain ⟨c, valid⟩ := cv
+    simp only [ha] at h
+    -- what authentication established
+    have hauth : ∃ id sec, auth = some (id, sec) ∧ w.client id = some c ∧
+        (c.base.isBasic = true → sec = some c.secret) ∧ (valid = true → c.base.isBasic = true) := by
+      unfold authenticate at ha
+      cases auth with
+      | none => simp at ha
+      | some p =>
+        obtain ⟨id, sec⟩ := p
+        simp only at ha
+        cases hc : w.client id with
+        | none => simp [hc] at ha
+        | some c' =>
+          simp only [hc] at ha
+          cases hb : c'.base.isBasic with
+          | true =>
+            simp only [hb, ↓reduceIte] at ha
+            cases sec with
+            | none => simp at ha
+            | some s' =>
+              simp only at ha
+              by_cases hs : authSecretOk (s' == c'.secret) = true
+              · simp only [hs, ↓reduceIte, Except.ok.injEq, Prod.mk.injEq] at ha
+                obtain ⟨h1, _⟩ := ha
+                subst h1
+                refine ⟨id, some s', rfl, hc, ?_, fun _ => hb⟩
+                intro _
+                have : s' = c'.secret := by simpa [authSecretOk] using hs
+                rw [this]
+              · simp [hs] at ha
+          | false =>
+            simp only [hb, Bool.false_eq_true, ↓reduceIte, Except.ok.injEq, Prod.mk.injEq] at ha
+            obtain ⟨h1, h2⟩ := ha
+            subst h1
+            refine ⟨id, sec, rfl, hc, ?_, ?_⟩
+            · intro hx; rw [hb] at hx; cases hx
+            · intro hx; rw [← h2] at hx; simp [authPublicValid] at hx
+    obtain ⟨id, sec, h1, h2, h3, h4⟩ := hauth
+    cases hd : dispatch hash w c valid g ct with
+    | mk w1 x =>
+      cases x with
+      | error e => simp [hd] at h
+      | ok r1 =>
+        simp only [hd, Prod.mk.injEq, Except.ok.injEq] at h
+        obtain ⟨_, hr⟩ := h
+        subst hr
+        refine ⟨id, sec, c, h1, h2, h3, ?_, ?_, ?_, ?_⟩
+        · intro t u v hg; subst hg
+          obtain ⟨cd, ht, _⟩ := exchange_code_grant (by simpa [dispatch] using hd)
+          exact ⟨cd, ht⟩
+        · intro t s hg; subst hg
+          obtain ⟨rt, ht, _⟩ := exchange_refresh_grant (by simpa [dispatch] using hd)
+          exact ⟨rt, ht⟩
+        · intro s hg; subst hg
+          simp only [dispatch] at hd
+          apply h4
+          cases hv : valid with
+          | true => rfl
+          | false => simp [exchangeCC, hv] at hd
+        · cases g with
+          | code t u v =>
+            obtain ⟨cd, _, _, _, _, _, hacc, _⟩ := exchange_code_grant (by simpa [dispatch] using hd)
+            rw [hacc]; rfl
+          | refresh t s =>
+            obtain ⟨rt, _, _, _, _, _, _, _, hacc, _⟩ := exchange_refresh_grant (by simpa [dispatch] using hd)
+            rw [hacc]; rfl
+          | cc s =>
+            simp only [dispatch, exchangeCC] at hd
+            repeat' split at hd
+            all_goals first
+              | (simp at hd; done)
+              | (simp only [Prod.mk.injEq, Except.ok.injEq] at hd; rw [← hd.2]; rfl)
+
+/-- Userinfo answers only at the client whose key signed the access token; introspection reports
+the client the token was made for. -/
+theorem access_token_only_at_its_client (w : World) (id : List Char) (t : Tok) (ct : Nat) (x : Nat × Nat)
+    (h : userinfo w id t ct = .ok x) :
+    ∃ c a, w.client id = some c ∧ t = .access c.base.uuid a ∧ asSecs ct < a.exp ∧
+      ∃ e, w.acct a.acct = some e ∧ acctValid e a.sid a.parent a.iat ct = true := by
+  unfold userinfo at h
+  cases hc : w.client id with
+  | none => simp [hc] at h
+  | some c =>
+    simp only [hc] at h
+    cases t with
+    | access key a =>
+      simp only at h
+      by_cases hk : key = c.base.uuid
+      · by_cases he : userinfoExpired a.exp (asSecs ct) = true
+        · simp [hk, he] at h
+        · cases ha : w.acct a.acct with
+          | none => simp [hk, he, ha] at h
+          | some e =>
+            cases hv : acctValid e a.sid a.parent a.iat ct with
+            | false => simp [hk, he, ha, hv] at h
+            | true =>
+              refine ⟨c, a, rfl, by rw [hk], ?_, e, ha, hv⟩
+              simpa [userinfoExpired] using he
+      · simp [hk] at h
+    | code _ _ => simp at h
+    | refresh _ _ => simp at h
+    | clientAccess _ _ => simp at h
+    | garbage => simp at h
+
+/-- An active introspection answer: exactly an unexpired access token whose account passes the
+validity test (and hence, by `dead_not_valid`, is not `Dead`). -/
+theorem introspect_active_only_if (w : World) (t : Tok) (ct sid acct : Nat) (scopes : List Nat)
+    (iat exp client : Nat) (h : introspect w t ct = .ok (.active sid acct scopes iat exp client)) :
+    (∃ key a, t = .access key a ∧ asSecs ct < a.exp ∧ a.sid = sid ∧ a.acct = acct ∧ a.scopes = scopes ∧
+      ∃ e, w.acct a.acct = some e ∧ acctValid e a.sid a.parent a.iat ct = true) ∨
+    (∃ key a, t = .clientAccess key a ∧ asSecs ct < a.exp ∧ a.sid = sid ∧ a.acct = acct ∧ a.scopes = scopes ∧
+      ∃ e, w.acct a.acct = some e ∧ acctValid e a.sid none a.iat ct = true) := by
+  unfold introspect at h
+  cases t with
+  | garbage => simp at h
+  | code key _ => simp only at h; split at h <;> simp at h
+  | refresh key _ => simp only at h; split at h <;> simp at h
+  | access key a =>
+    left
+    simp only at h
+    cases hc : w.clientByKey key with
+    | none => simp [hc] at h
+    | some c =>
+      by_cases he : introspectJwtExpired a.exp (asSecs ct) = true
+      · simp [hc, he] at h
+      · cases ha : w.acct a.acct with
+        | none => simp [hc, he, ha] at h
+        | some e =>
+          cases hv : acctValid e a.sid a.parent a.iat ct with
+          | false => simp [hc, he, ha, hv] at h
+          | true =>
+            simp [hc, he, ha, hv] at h
+            exact ⟨key, a, rfl, by simpa [introspectJwtExpired] using he, h.1, h.2.1, h.2.2.1, e, ha, hv⟩
+  | clientAccess key a =>
+    right
+    simp only at h
+    cases hc : w.clientByKey key with
+    | none => simp [hc] at h
+    | some c =>
+      by_cases he : introspectJweExpired a.exp (asSecs ct) = true
+      · simp [hc, he] at h
+      · cases ha : w.acct a.acct with
+        | none => simp [hc, he, ha] at h
+        | some e =>
+          cases hv : acctValid e a.sid none a.iat ct with
+          | false => simp [hc, he, ha, hv] at h
+          | true =>
+            simp [hc, he, ha, hv] at h
+            exact ⟨key, a, rfl, by simpa [introspectJweExpired] using he, h.1, h.2.1, h.2.2.1, e, ha, hv⟩
+
+/-- The revocation endpoint: an unexpired token of a registered client revokes its session. -/
+theorem revoke_endpoint_revokes (w : World) (key : Nat) (rt : RefreshTok) (ct : Nat) (c : TClient) (e : Entry) (s : Sess)
+    (hc : w.clientByKey key = some c) (hexp : asSecs ct < rt.exp) (ha : w.acct rt.acct = some e)
+    (hs : lookup e.o2s rt.sid = some s) :
+    O2Revoked (revoke w (.refresh key rt) ct).1 rt.acct rt.sid := by
+  obtain ⟨w', hw'⟩ := update_isSome (w := w) id (.revokeO2 rt.sid) ct ha
+  have hx : revokeExpired rt.exp (asSecs ct) = false := by simp [revokeExpired]; exact hexp
+  have : (revoke w (.refresh key rt) ct).1 = w' := by
+    simp [revoke, hc, revokeCore, hx, World.write, hw']
+  rw [this]
+  obtain ⟨e0, he0, he1, _⟩ := write_spec (w := w) (w' := w') hw'
+  rw [ha] at he0; cases he0
+  refine ⟨_, he1, ?_⟩
+  show RevokedIn (plugin ct w.cid (applyMod w.cid e (.revokeO2 rt.sid))).o2s rt.sid
+  apply revokedIn_plugin
+  refine ⟨Kanidm.SessionPlugin.revoke w.cid s, ?_, revoke_revoked w.cid s⟩
+  simp only [applyMod]
+  rw [lookup_revokeKey, hs]; simp
+
+/-! ## 8. The hypotheses are satisfiable -/
+
+/-- A code of the witness client for the witness person, exchanged at 6 s with the right verifier:
+all of `CodeTerms` hold, so tokens are issued … -/
+def witnessCode : ExchangeCode := ⟨200, 300, 65, some 7, 5, [0, 3], none, none⟩
+
+example : ∃ cd e, CodeTerms id witnessWorld witnessClient (.code 400 witnessCode) 5 (some 7) 6000000000 cd e := by
+  refine ⟨witnessCode, witnessEntry, ⟨rfl, by decide, Or.inl ⟨7, 7, rfl, rfl, rfl⟩, rfl, rfl, by decide, ?_⟩⟩
+  rw [← codeParentDeadOn_iff]
+  decide
+
+/-- … and with a wrong verifier, another client's key, a changed redirect URI or one second after
+its expiry they are not. -/
+example : isOkB (exchangeCode id witnessWorld witnessClient (.code 400 witnessCode) 5 (some 7) 6000000000).2 = true ∧
+    isOkB (exchangeCode id witnessWorld witnessClient (.code 400 witnessCode) 5 (some 8) 6000000000).2 = false ∧
+    isOkB (exchangeCode id witnessWorld witnessClient (.code 401 witnessCode) 5 (some 7) 6000000000).2 = false ∧
+    isOkB (exchangeCode id witnessWorld witnessClient (.code 400 witnessCode) 6 (some 7) 6000000000).2 = false ∧
+    isOkB (exchangeCode id witnessWorld witnessClient (.code 400 witnessCode) 5 (some 7) 65000000000).2 = false := by
+  decide +kernel
+
+/-- The witness refresh token is redeemable at 7 s (all of `RefreshTerms`), its session then
+carries that instant, and presenting it again at 9 s revokes the session; the revoked session is
+`Dead`. -/
+example : isOkB (exchangeRefresh witnessWorld witnessClient (.refresh 400 witnessToken) (some [0]) 7000000000).2 = true ∧
+    isOkB (exchangeRefresh witnessWorld witnessClient (.refresh 400 witnessToken) (some [0, 3]) 7000000000).2 = false ∧
+    isOkB (exchangeRefresh (exchangeRefresh witnessWorld witnessClient (.refresh 400 witnessToken) none 7000000000).1
+      witnessClient (.refresh 400 witnessToken) none 9000000000).2 = false := by
+  decide +kernel
+
+example : Dead { Entry.fresh (some 500) with o2s := [(1000, ⟨.revokedAt 3, 0, 0⟩)] } 1000 none 5 :=
+  Or.inr ⟨_, rfl, Or.inl (Or.inl ⟨3, rfl⟩)⟩
 
 end Kanidm.OAuth2.Token
